@@ -46,9 +46,10 @@ impl OperationControl for Capture {
         matcher: &'a ReMatcher<'a>,
         position: usize,
     ) -> Box<dyn Iterator<Item = usize> + 'a> {
-        if (matcher.program.optimization_flags & OPT_HASBACKREFS) != 0 {
-            matcher.set_start_backref(self.group_nr, Some(position));
-        }
+        // the back-reference arrays are written when the group has matched (in
+        // CaptureGroupIterator::next), start and end together: a start recorded on
+        // entry would be left beside the end of an earlier match of the group
+        // whenever the body fails
         let basis = self.child_op.matches_iter(matcher, position);
 
         Box::new(CaptureGroupIterator::new(
